@@ -10,6 +10,7 @@ CONSTANTS
   MCWrites = 2
   MCPauses = 0
   MCPanics = {FALSE, TRUE}
+  MCGoAway = TRUE
   GenDepth = 16
 INVARIANTS Emit NoViolation HandlerBound StreamLimit NeverHandled
 CHECK_DEADLOCK FALSE
